@@ -43,6 +43,7 @@ type Term struct {
 	T    types.Type
 	V    ssa.Value
 	Name string // pure-call name
+	CV   *cval  // pxconc.go: the concrete value (function value, table) the term denotes, if known
 	key  string
 }
 
